@@ -717,6 +717,75 @@ def lme_fitted(run: Run, n_cohorts: int, cases_p, meta_p, cases_t, meta_t, cases
         LMEPersonalizeAlgorithm._generic_get_random_effects = staticmethod(orig_gen)
 
 
+def benchmark_object_reuse(run: Run, thorough: bool):
+    """The benchmark personalisations given ONE Dataset object several times (with and without random slope, constant model in
+    between): every call must return what the first one returned — the conditional means / the configured constant — and the
+    caller's Dataset (ages, values, mask) must be bit-identical afterwards (nothing normalised or sorted in place)."""
+    import pandas as pd
+    import torch
+    from leaspy.io.data import Data, Dataset
+    from leaspy.models import ConstantModel, LMEModel
+    g = run.rng("benchmark-reuse")
+    for c in range(8 if thorough else 4):
+        cohort = gen_cohort(g, g.randint(8, 14))
+        flat = [(i, t, v) for i, obs in cohort.items() for t, v in obs]
+        df = pd.DataFrame(flat, columns=["ID", "TIME", "Y"])
+        desc = dict(case="dataset-reuse", cohort_index=c, cohort={i: [[t, None if isnan(v) else v] for t, v in o] for i, o in cohort.items()})
+        try:
+            with warnings.catch_warnings():
+                warnings.simplefilter("ignore")
+                data = Data.from_dataframe(df)
+                models = {}
+                for slope in (True, False):
+                    m = LMEModel("lme", with_random_slope_age=slope)
+                    m.fit(data, "lme_fit")
+                    models[slope] = m
+                ds = Dataset(data)
+        except Exception as e:  # statsmodels' optimiser is outside the property
+            run.count("reuse.outcome", f"fit:{type(e).__name__}")
+            continue
+        snap = {k: getattr(ds, k).clone() for k in ("timepoints", "values", "mask")}
+
+        def pers(model, obj, algo="lme_personalize", **kw):
+            with warnings.catch_warnings():
+                warnings.simplefilter("ignore")
+                ip = model.personalize(obj, algo, **kw)
+            # (not to_dataframe(): it refuses scalar-valued parameters, a listed finding of C16)
+            rows = {}
+            for i in ip._indices:
+                vals = []
+                for name in sorted(ip._individual_parameters[i]):
+                    v = ip._individual_parameters[i][name]
+                    vals += [float(x) for x in (v if isinstance(v, (list, tuple)) else [v])]
+                rows[str(i)] = vals
+            return pd.DataFrame.from_dict(rows, orient="index").sort_index()
+        try:
+            ref = {sl: pers(models[sl], data) for sl in (True, False)}            # a fresh Dataset is built from Data at each call
+            seq = [(True, "first"), (False, "second, other model"), (True, "third")]
+            for sl, label in seq:
+                got = pers(models[sl], ds)
+                run.case(("dataset-reuse", c, sl, label), nontrivial=True)
+                run.count("reuse.outcome", "compared")
+                if not (list(got.index) == list(ref[sl].index) and list(got.columns) == list(ref[sl].columns)
+                        and float((got - ref[sl]).abs().max().max()) <= 1e-9):
+                    run.fail("lme:personalize:depends-on-earlier-use-of-the-dataset-object",
+                             f"lme_personalize on a Dataset object already used by an earlier personalisation ({label} call) does not return the "
+                             "conditional means it returns on fresh data", dict(desc, with_random_slope_age=sl, call=label),
+                             expected=ref[sl].iloc[0].tolist(), observed=got.iloc[0].tolist())
+                    break
+            cm = ConstantModel("constant")
+            pers(cm, ds, "constant_prediction", prediction_type="last")
+            pers(cm, ds, "constant_prediction", prediction_type="mean")
+        except Exception as e:
+            run.fail(f"benchmark:dataset-reuse:raises:{type(e).__name__}", f"{type(e).__name__}: {e}", desc)
+            continue
+        for k, v in snap.items():
+            now = getattr(ds, k)
+            if now.dtype != v.dtype or now.shape != v.shape or not torch.equal(now, v):
+                run.fail(f"benchmark:caller-dataset-modified:{k}", f"the Dataset passed to the benchmark personalisations has different `{k}` afterwards",
+                         desc, expected=v.reshape(-1)[:6].tolist(), observed=now.reshape(-1)[:6].tolist())
+
+
 def lme_all(run: Run, thorough: bool):
     cases_p, meta_p, cases_t, meta_t, cases_b, meta_b = [], [], [], [], [], []
     lme_designed(run, 60 if thorough else 18, cases_p, meta_p, cases_t, meta_t)
@@ -770,6 +839,11 @@ def _check(run: Run, thorough: bool):
     const_api(run, 300 if thorough else 45)
     lme_blup_direct(run, 1500 if thorough else 250)
     lme_all(run, thorough)
+    try:
+        benchmark_object_reuse(run, thorough)
+    except Exception as e:  # noqa
+        import traceback
+        run.broken("benchmark-object-reuse", f"{type(e).__name__}: {e}\n{traceback.format_exc()[-1200:]}", kind="broken-correspondence")
 
 
 def main(run: Run):
